@@ -54,3 +54,207 @@ def len2bytes(inp):
     else:
         obs = obs[:2]
     return {"fails": exp != obs, "expected": exp, "observed": obs}
+
+
+# ---------------------------------------------------------------------------------------
+# messages
+# ---------------------------------------------------------------------------------------
+LIBS = ("RTCMMessageError", "RTCMParseError", "RTCMStreamError", "RTCMTypeError")
+
+
+@check
+def message_decode(inp):
+    """RTCMMessage(payload, labelmsm) against the reference layout interpreter (C03/C04/C06/C09/C15)."""
+    from spec import refdecode
+    p = bytes.fromhex(inp["payload"])
+    lm = inp.get("labelmsm", 1)
+    if len(p) < 2 or (len(p) < 3 and p[0] == 0xFE and p[1] >> 4 == 0xC):
+        obs = refdecode.real_decode(p, lm)
+        return {"fails": obs[0] != "error", "expected": ("error", "RTCMMessageError (payload shorter than its identity)"), "observed": obs[:2]}
+    ok, exp, obs = refdecode.compare(p, lm)
+    return {"fails": not ok, "expected": exp, "observed": obs}
+
+
+@check
+def identity(inp):
+    from pyrtcm import RTCMMessage
+    from spec.ident import ident
+    p = bytes.fromhex(inp["payload"])
+    try:
+        exp = ("ok", ident(p))
+    except IndexError:
+        exp = ("raise", "RTCMMessageError")
+    try:
+        m = RTCMMessage(payload=p)
+        obs = ("ok", m.identity)
+        if exp[0] == "ok":
+            from spec import refdecode
+            if refdecode.lookup_definition(exp[1]) is not None and str(getattr(m, "DF002", None)) != exp[1].split("_")[0]:
+                obs = ("ok", f"{m.identity} but DF002={getattr(m, 'DF002', None)}")
+    except BaseException as e:  # noqa
+        obs = ("raise", type(e).__name__)
+        if obs[1] == "RTCMTypeError" and exp[0] == "ok":
+            obs = exp  # a defined type whose body does not fit: not an identity question
+    return {"fails": exp != obs, "expected": exp, "observed": obs}
+
+
+@check
+def ismsm(inp):
+    from pyrtcm import RTCMMessage
+    from pyrtcm.rtcmtypes_get_msm import RTCM_PAYLOADS_GET_MSM
+    from spec.ident import ident
+    p = bytes.fromhex(inp["payload"])
+    idt = ident(p)
+    m = None
+    try:
+        m = RTCMMessage(payload=p)
+    except BaseException as e:  # noqa
+        return {"fails": False, "expected": None, "observed": f"constructor raised {type(e).__name__}"}
+    obs = outcome(lambda: m.ismsm)
+    inblock = idt.isdigit() and 1070 <= int(idt) <= 1229
+    bad = obs[0] != "ok" or (idt in RTCM_PAYLOADS_GET_MSM and obs[1] is not True) or (not inblock and obs[1] is not False)
+    return {"fails": bad, "expected": ("ok", "True for implemented MSM, False outside 1070-1229"), "observed": obs}
+
+
+@check
+def serialize(inp):
+    from pyrtcm import RTCMMessage, RTCMReader
+    from spec.crc import crc_bytes
+    p = bytes.fromhex(inp["payload"])
+    try:
+        m = RTCMMessage(payload=p)
+    except BaseException as e:  # noqa
+        return {"fails": False, "expected": None, "observed": f"constructor raised {type(e).__name__}"}
+    head = b"\xd3" + bytes([len(p) // 256, len(p) % 256]) + p
+    exp = ("ok", (head + crc_bytes(head).to_bytes(3, "big")).hex())
+    obs = outcome(m.serialize)
+    if obs[0] == "ok":
+        obs = ("ok", obs[1].hex())
+    if exp == obs:
+        # round trips
+        m2 = outcome(RTCMReader.parse, bytes.fromhex(obs[1]))
+        if m2[0] != "ok" or m2[1].payload != p or m2[1].identity != m.identity or m2[1].__dict__ != m.__dict__:
+            obs = ("ok", "parse(serialize(m)) differs from m")
+        else:
+            r = outcome(lambda: eval(repr(m), {"RTCMMessage": RTCMMessage}).payload)  # noqa: eval of repr is what the property states
+            if r != ("ok", p):
+                obs = ("ok", f"eval(repr(m)).payload -> {r}")
+    return {"fails": exp != obs, "expected": exp, "observed": obs}
+
+
+@check
+def immutable(inp):
+    from pyrtcm import RTCMMessage
+    from pyrtcm.exceptions import RTCMMessageError
+    p = bytes.fromhex(inp["payload"])
+    try:
+        m = RTCMMessage(payload=p)
+    except BaseException as e:  # noqa
+        return {"fails": False, "expected": None, "observed": f"constructor raised {type(e).__name__}"}
+    snap = (dict(m.__dict__), m.payload, m.identity, str(m), m.serialize())
+    names = list(m.__dict__) + ["brand_new", "_x"] + inp.get("names", [])
+    for nm in names:
+        for val in (0, getattr(m, nm, None), "x"):
+            try:
+                setattr(m, nm, val)
+                return {"fails": True, "expected": "RTCMMessageError", "observed": f"setattr({nm!r}, {val!r}) succeeded"}
+            except RTCMMessageError:
+                pass
+            except BaseException as e:  # noqa
+                return {"fails": True, "expected": "RTCMMessageError", "observed": f"setattr({nm!r}) raised {type(e).__name__}"}
+    after = (dict(m.__dict__), m.payload, m.identity, str(m), m.serialize())
+    return {"fails": snap != after, "expected": "unchanged", "observed": "changed" if snap != after else "unchanged"}
+
+
+@check
+def parse_static(inp):
+    """RTCMReader.parse(message, validate, labelmsm) (C04, C07, C08, C17)."""
+    from pyrtcm import RTCMReader
+    from spec import refdecode
+    from spec.crc import crc_bytes
+    msg = bytes.fromhex(inp["message"])
+    validate, lm = inp.get("validate", 1), inp.get("labelmsm", 1)
+    try:
+        r = RTCMReader.parse(msg, validate=validate, labelmsm=lm)
+        obs = ("ok", r.payload.hex(), {k: v for k, v in r.__dict__.items() if not k.startswith("_")})
+    except BaseException as e:  # noqa
+        obs = ("raise", type(e).__name__)
+    if validate & 1 and crc_bytes(msg) != 0:
+        exp = ("raise", "RTCMParseError")
+        return {"fails": obs != exp, "expected": exp, "observed": obs[:2]}
+    p = msg[3:-3]
+    if len(p) < 2 or (len(p) < 3 and p[0] == 0xFE and p[1] >> 4 == 0xC):
+        return {"fails": obs != ("raise", "RTCMMessageError"), "expected": ("raise", "RTCMMessageError"), "observed": obs[:2]}
+    ref = refdecode.ref_decode(p, lm)
+    if ref[0] == "error":
+        bad = not (obs[0] == "raise" and obs[1] in ("RTCMTypeError", "RTCMMessageError"))
+        return {"fails": bad, "expected": ("raise", "RTCMTypeError"), "observed": obs[:2]}
+    bad = obs[0] != "ok" or obs[1] != p.hex() or obs[2] != ref[1]
+    return {"fails": bad, "expected": ("ok", p.hex()[:40], len(ref[1])), "observed": (obs[0], str(obs[1])[:40], len(obs[2]) if obs[0] == "ok" else None)}
+
+
+# ---------------------------------------------------------------------------------------
+# reader
+# ---------------------------------------------------------------------------------------
+def _drive(data, cuts, validate, quitonerror, parsed, handler, labelmsm=1, maxsteps=None):
+    from pyrtcm import RTCMReader
+    from spec.streams import FaultyStream
+    st = FaultyStream(data, cuts)
+    calls = []
+    rd = RTCMReader(st, validate=validate, quitonerror=quitonerror, parsed=parsed, labelmsm=labelmsm,
+                    errorhandler=(lambda e: calls.append(type(e).__name__)) if handler else None)
+    events = []
+    maxsteps = maxsteps or (len(data) + 10)
+    for _ in range(maxsteps):
+        p_before = st.pos
+        try:
+            raw, msg = rd.read()
+        except BaseException as e:  # noqa
+            events.append(("raise", type(e).__name__, p_before, st.pos))
+            if type(e).__name__ not in LIBS:
+                break
+            continue
+        events.append(("ret", raw, msg, p_before, st.pos, st.last_empty))
+        if raw is None:
+            break
+    else:
+        events.append(("nonterminating",))
+    return events, calls, st
+
+
+@check
+def reader_safety(inp):
+    """C01 / C04 / C05-modes on one concrete stream with one fault schedule."""
+    from spec.ident import ident
+    from spec.streams import wf_frame
+    data = bytes.fromhex(inp["data"])
+    validate, q, parsed, handler = inp.get("validate", 1), inp.get("quitonerror", 1), inp.get("parsed", True), inp.get("handler", False)
+    events, calls, st = _drive(data, inp.get("cuts", []), validate, q, parsed, handler)
+    last_end = 0
+    for ev in events:
+        if ev[0] == "nonterminating":
+            return {"fails": True, "expected": "iteration finishes", "observed": "no end of data after len+10 reads"}
+        if ev[0] == "raise":
+            if ev[1] not in LIBS or q != 2:
+                return {"fails": True, "expected": "no exception" if q != 2 else "library error", "observed": f"{ev[1]} (quitonerror={q})"}
+            continue
+        _, raw, msg, p0, p1, last_empty = ev
+        if raw is None:
+            if msg is not None or not last_empty:
+                return {"fails": True, "expected": "(None, None) only after an empty read", "observed": f"msg={msg!r} last_empty={last_empty}"}
+            continue
+        s = p1 - len(raw)
+        if s < last_end or data[s:p1] != raw:
+            return {"fails": True, "expected": "contiguous in-order slice of the input", "observed": f"raw={raw.hex()[:40]} at {s}:{p1}, previous end {last_end}"}
+        last_end = p1
+        hdr_ok = len(raw) >= 6 and raw[0] == 0xD3 and raw[1] & 0xFC == 0 and ((raw[1] & 3) << 8 | raw[2]) == len(raw) - 6
+        if not hdr_ok or (parsed and validate & 1 and not wf_frame(raw)):
+            return {"fails": True, "expected": "well-formed frame", "observed": raw.hex()[:60]}
+        if parsed:
+            if msg is None or msg.payload != raw[3:-3] or msg.identity != ident(raw[3:-3]):
+                return {"fails": True, "expected": "message carrying the slice's payload and number", "observed": repr(msg)[:80]}
+        elif msg is not None:
+            return {"fails": True, "expected": "no parsed object when parsed=False", "observed": repr(msg)[:80]}
+    if q == 0 and calls:
+        return {"fails": True, "expected": "handler never called in ignore mode", "observed": calls[:5]}
+    return {"fails": False, "events": len(events)}
